@@ -15,10 +15,14 @@ import (
 )
 
 func (in *Interp) constValue(c *ssa.Const) Value {
-	t := c.Type()
 	if c.Value == nil {
-		return in.zero(t)
+		return in.zero(c.Type())
 	}
+	return in.constValue1(c)
+}
+
+func (in *Interp) constValue1(c *ssa.Const) Value {
+	t := c.Type()
 	b, ok := t.Underlying().(*types.Basic)
 	if !ok {
 		// e.g. a type parameter or interface holding a constant: not expected here
